@@ -24,6 +24,11 @@ def seeded_table():
         caught = ", ".join("%s (%s)" % (k, "; ".join(x.replace("key=", "").split(" occurrences")[0] for x in v.get("keys", [])[:2])) if v["verdict"] == "CAUGHT" else "%s: %s" % (k, v["verdict"]) for k, v in sorted(q.items()))
         if m.get("history"):
             caught += " — " + m["history"]
+        rq = (m.get("rechecked") or {}).get("quick_checks")
+        if rq:
+            caught += " — after the strengthening (/verif %s): " % m["rechecked"].get("verif_commit", "?") + ", ".join(
+                "%s %s%s" % (k, v["verdict"], (" (%s)" % "; ".join(x.replace("key=", "").split(" occurrences")[0] for x in v.get("keys", [])[:2])) if v["verdict"] == "CAUGHT" else "")
+                for k, v in sorted(rq.items()))
         def cut(s, n):
             s = s.replace("|", "/").replace("\n", " ")
             return s if len(s) <= n else s[:n - 1] + "…"
